@@ -12,7 +12,7 @@ from pbt.runner import Check, Disc, Outcome
 
 from checks.c01 import BATCH_LIMITS, batch_limit, doc_classes
 
-CODE_CLAUSE_PREFIXES = ('code/', 'app-error', 'lib-error', 'expected-error', 'expected-success', 'nothing-vs-response')
+CODE_CLAUSE_PREFIXES = ('code/', 'app-error', 'lib-error', 'expected-error', 'expected-success', 'nothing-vs-response', 'id')
 
 
 class C03(Check):
@@ -21,7 +21,7 @@ class C03(Check):
     quick_examples = 4000
     thorough_examples = 50000
     rule = (
-        "cases: request documents of C01/C02 (valid / invalid objects, batches, non-JSON text) over the 14-method registry whose failing "
+        "cases: request documents of C01/C02 (valid / invalid objects, batches, non-JSON text) over the 15-method registry whose failing "
         "methods are scripted per case: protocol errors of the base class with codes over {0, 1, -1, 7, standard codes, reserved server "
         "range, +-2^31, 10^30, random 70-bit} and of every typed class, messages incl. '' and Unicode edge strings, data absent / null / any "
         "JSON value; 12 exception types (ValueError, KeyError, TypeError raised inside the body, AssertionError, RuntimeError, custom "
